@@ -137,12 +137,12 @@ def _scenario(item):
         p = os.path.join(src, "s.xsh")
         with open(p, "w") as f:
             f.write(P_BODIES[body])
-        os.utime(p, (core.BASE + tick, core.BASE + tick))
+        core.utime_tick(p, tick)
 
     def stamp(tick):
         for p in _entries(data):
             if core.Rig.get_tick(p) is None:
-                os.utime(p, (core.BASE + tick, core.BASE + tick))
+                core.utime_tick(p, tick)
 
     if kind == "script":
         write(0, 10)
@@ -150,7 +150,7 @@ def _scenario(item):
         if ev.startswith("link-"):
             name = "l.xsh"
             os.symlink("s.xsh", os.path.join(src, name))
-            os.utime(os.path.join(src, name), (core.BASE + core.LINK_TICK, core.BASE + core.LINK_TICK), follow_symlinks=False)
+            core.utime_tick(os.path.join(src, name), core.LINK_TICK, follow_symlinks=False)
         args1 = args2 = [name]
         o1 = _xonsh(args1, src, home, data)
         runs += 1
